@@ -1,0 +1,12 @@
+//go:build verif
+// +build verif
+
+package lb
+
+// VerifSetRandInt replaces the sample source of random and least-connection
+// balancers, it returns the previous one.
+func VerifSetRandInt(f func() int) (old func() int) {
+	old = randInt
+	randInt = f
+	return old
+}
